@@ -31,3 +31,28 @@ Proof. repeat split; reflexivity. Qed.
 Lemma tie_cdb_error_stays_an_error :
   Params_gen.rcpthosts_returns_seek_result = 1 /\ Params_gen.smtpd_dies_on_rcpthosts_error = 1.
 Proof. split; reflexivity. Qed.
+(* the same functions as GENERATED from today's sources by tools/c2gallina.py (coq/gen/CGen.v) equal the models, for all
+   inputs: so constmap_hash_respects_case, cdb_reader_finds_what_writer_stored etc. are about what the code says now *)
+From NQ Require Base.MiniC Base.Bytes gen.CGen Tie.GenCommon Tie.Gen_tables.
+Lemma tie_generated_constmap_hash : forall s : Bytes.bytes, GenCommon.bytes_ok s -> Z.of_nat (List.length s) < 2 ^ 31 ->
+  GenCommon.retval (CGen.C_cm_hash.run (S (List.length s)) (GenCommon.zs s) 0 (Z.of_nat (List.length s))) = Some (Z.of_N (Constmap.cm_hash s)).
+Proof. exact Gen_tables.gen_cm_hash_eq. Qed.
+Lemma tie_generated_cdb_hash : forall s : Bytes.bytes, GenCommon.bytes_ok s -> Z.of_nat (List.length s) < 2 ^ 32 ->
+  GenCommon.retval (CGen.C_cdb_hash.run (S (List.length s)) (GenCommon.zs s) 0 (Z.of_nat (List.length s))) = Some (Z.of_N (Cdb.cdb_hash s)).
+Proof. exact Gen_tables.gen_cdb_hash_eq. Qed.
+Lemma tie_generated_cdbmake_hashadd : forall h c : N, (h < 4294967296)%N -> (c < 256)%N ->
+  GenCommon.retval (CGen.C_cdbmake_hashadd.run 1 (Z.of_N h) (Z.of_N c)) = Some (Z.of_N (Cdb.hashadd h c)).
+Proof. exact Gen_tables.gen_cdbmake_hashadd_eq. Qed.
+Lemma tie_generated_cdb_unpack : forall b0 b1 b2 b3 : N, GenCommon.bytes_ok [b0; b1; b2; b3] ->
+  GenCommon.retval (CGen.C_cdb_unpack.run 1 (GenCommon.zs [b0; b1; b2; b3]) 0) = Some (Z.of_N (Cdb.unpack32 [b0; b1; b2; b3])).
+Proof. exact Gen_tables.gen_cdb_unpack_eq. Qed.
+Lemma tie_generated_cdbmake_pack : forall (n : N) (old : list Z), (n < 4294967296)%N -> List.length old = 4%nat ->
+  option_map (fun r => CGen.C_cdbmake_pack.a_buf (snd r)) (CGen.C_cdbmake_pack.run 1 old 0 (Z.of_N n)) = Some (GenCommon.zs (Cdb.pack32 n)).
+Proof. exact Gen_tables.gen_cdbmake_pack_eq. Qed.
+Lemma tie_generated_case_diffb : forall a b : Bytes.bytes, GenCommon.bytes_ok a -> GenCommon.bytes_ok b -> List.length a = List.length b -> Z.of_nat (List.length a) < 2 ^ 32 ->
+  exists v, GenCommon.retval (CGen.C_case_diffb.run (S (List.length a)) (GenCommon.zs a) 0 (Z.of_nat (List.length a)) (GenCommon.zs b) 0) = Some v /\
+            (v = 0 <-> Constmap.case_eqb a b = true).
+Proof. exact Gen_tables.gen_case_diffb_eq. Qed.
+Lemma tie_generated_case_lowerb : forall s : Bytes.bytes, GenCommon.bytes_ok s -> Z.of_nat (List.length s) < 2 ^ 32 ->
+  option_map (fun r => CGen.C_case_lowerb.a_s (snd r)) (CGen.C_case_lowerb.run (S (List.length s)) (GenCommon.zs s) 0 (Z.of_nat (List.length s))) = Some (GenCommon.zs (Bytes.lowers s)).
+Proof. exact Gen_tables.gen_case_lowerb_eq. Qed.
